@@ -79,7 +79,7 @@ def install(ex):
         res = ex_.symbolic_array('odeint_y%d' % n, 2, REAL, 'ndarray')
         ex_.assume_fact(tm.eq(to_term(res.shape[0]), to_term(tp.shape[0])))
         ex_.assume_fact(tm.eq(to_term(res.shape[1]), to_term(x0.shape[0])))
-        calls.append(dict(rhs=rhs, x0=x0, x0_term=x0.term, timepoints=tp, kwargs=dict(kwargs), ok=ok, result=res))
+        calls.append(dict(rhs=rhs, x0=x0, x0_term=x0.term, timepoints=tp, kwargs=dict(kwargs), ok=ok, result=res, result_term=res.term))
         if kwargs.get('full_output'):
             return (res, {'message': OdeMessage(ok)})
         return res
